@@ -50,6 +50,8 @@ type keyPkg struct {
 	busy   map[string]bool
 	// imported packages whose key functions may be called as pkg.F(...)
 	imports map[string]*keyPkg
+	// lenient: unknown parameter types are tolerated as long as the key expression does not use them
+	lenient bool
 }
 
 func newKeyPkg(fset *token.FileSet) *keyPkg {
@@ -141,11 +143,28 @@ func paramType(e ast.Expr) (string, bool) {
 			return "str", true
 		}
 	case *ast.SelectorExpr:
-		if id, ok := x.X.(*ast.Ident); ok && id.Name == "exported" && x.Sel.Name == "Height" {
-			return "height", true
+		if id, ok := x.X.(*ast.Ident); ok {
+			switch id.Name + "." + x.Sel.Name {
+			case "exported.Height", "clienttypes.Height":
+				return "height", true
+			case "common.Hash":
+				return "hash", true
+			}
 		}
 	}
 	return "", false
+}
+
+// paramTypeLenient: parameters a key expression never uses (stores, codecs, …) are tolerated as "other";
+// a struct with a Height field (bsc Signer) is "signer"
+func paramTypeLenient(e ast.Expr) string {
+	if t, ok := paramType(e); ok {
+		return t
+	}
+	if id, ok := e.(*ast.Ident); ok && id.Name == "Signer" {
+		return "signer"
+	}
+	return "other"
 }
 
 type kenv struct {
@@ -178,6 +197,9 @@ func (p *keyPkg) eval(name string) (*kfunc, error) {
 	env := &kenv{p: p, fn: fd, params: map[string]int{}, locals: map[string]*sval{}}
 	for _, f := range fd.Type.Params.List {
 		ty, ok := paramType(f.Type)
+		if !ok && p.lenient {
+			ty, ok = paramTypeLenient(f.Type), true
+		}
 		if !ok {
 			return nil, p.errf(f, "%s: unsupported parameter type", name)
 		}
@@ -250,9 +272,72 @@ func (p *keyPkg) eval(name string) (*kfunc, error) {
 	if err != nil {
 		return nil, err
 	}
-	k := &kfunc{Name: name, Params: env.ptys, Segs: mergeLits(segs)}
+	k := dropUnused(&kfunc{Name: name, Params: env.ptys, Segs: mergeLits(segs)})
 	p.done[name] = k
 	return k, nil
+}
+
+// evalLocal translates the right-hand side of `<local> := <key expression>` inside function `fn` (used for keys
+// that are built inline, e.g. bsc DeleteSigner); emitted under the name `as`
+func (p *keyPkg) evalLocal(fn, local, as string) (*kfunc, error) {
+	fd, ok := p.decls[fn]
+	if !ok {
+		return nil, fmt.Errorf("function %s not found", fn)
+	}
+	env := &kenv{p: p, fn: fd, params: map[string]int{}, locals: map[string]*sval{}}
+	for _, f := range fd.Type.Params.List {
+		ty := paramTypeLenient(f.Type)
+		for _, n := range f.Names {
+			env.params[n.Name] = len(env.ptys)
+			env.ptys = append(env.ptys, kparam{Name: n.Name, Ty: ty})
+		}
+	}
+	var rhs ast.Expr
+	ast.Inspect(fd.Body, func(n ast.Node) bool {
+		as, ok := n.(*ast.AssignStmt)
+		if ok && len(as.Lhs) == 1 && len(as.Rhs) == 1 {
+			if id, ok := as.Lhs[0].(*ast.Ident); ok && id.Name == local && rhs == nil {
+				rhs = as.Rhs[0]
+			}
+		}
+		return true
+	})
+	if rhs == nil {
+		return nil, p.errf(fd, "%s: local key variable %s not found", fn, local)
+	}
+	v, err := env.expr(rhs)
+	if err != nil {
+		return nil, err
+	}
+	segs, err := env.flatten(fd, v)
+	if err != nil {
+		return nil, err
+	}
+	return dropUnused(&kfunc{Name: as, Params: env.ptys, Segs: mergeLits(segs)}), nil
+}
+
+// dropUnused removes parameters of kind "other" (never referenced by a segment) and renumbers the rest
+func dropUnused(k *kfunc) *kfunc {
+	remap := map[int]int{}
+	var ps []kparam
+	for i, q := range k.Params {
+		if q.Ty == "other" {
+			continue
+		}
+		remap[i] = len(ps)
+		if q.Ty == "signer" {
+			q.Ty = "height"
+		}
+		ps = append(ps, q)
+	}
+	var ss []seg
+	for _, s := range k.Segs {
+		if s.Kind != "lit" {
+			s.Param = remap[s.Param]
+		}
+		ss = append(ss, s)
+	}
+	return &kfunc{Name: k.Name, Params: ps, Segs: ss}
 }
 
 func (e *kenv) flatten(n ast.Node, v *sval) ([]seg, error) {
@@ -565,8 +650,20 @@ func (e *kenv) sprintf(c *ast.CallExpr) (*sval, error) {
 				case verb == 's' && e.ptys[j].Ty == "str":
 					out = append(out, seg{Kind: "str", Param: j})
 					continue
+				case verb == 's' && e.ptys[j].Ty == "hash":
+					out = append(out, seg{Kind: "hashHex", Param: j})
+					continue
 				}
 				return nil, p.errf(c, "verb %%%c applied to parameter %s of type %s", verb, id.Name, e.ptys[j].Ty)
+			}
+		}
+		// signer.Height printed with %s
+		if sel, ok := a.(*ast.SelectorExpr); ok && verb == 's' && sel.Sel.Name == "Height" {
+			if id, ok := sel.X.(*ast.Ident); ok {
+				if j, ok := e.params[id.Name]; ok && e.ptys[j].Ty == "signer" {
+					out = append(out, seg{Kind: "heightStr", Param: j})
+					continue
+				}
 			}
 		}
 		if verb != 's' {
@@ -651,6 +748,46 @@ func runHostKeys(ctx *Ctx) error {
 		}
 		tmFuncs = append(tmFuncs, k)
 	}
+	// BSC client store: recent-signer keys ("recentSingers/<height as text>"), built in two places
+	bf, err := parseFile(fset, filepath.Join(ctx.Repo, "x/xibc/clients/light-clients/bsc/types/store.go"))
+	if err != nil {
+		return err
+	}
+	bsc := newKeyPkg(fset)
+	bsc.lenient = true
+	bsc.imports["host"] = host
+	if err := bsc.load(bf); err != nil {
+		return err
+	}
+	var bscFuncs []*kfunc
+	k1, err := bsc.eval("keyRecentSinger")
+	if err != nil {
+		return err
+	}
+	k2, err := bsc.evalLocal("DeleteSigner", "keyBz", "deleteSignerKey")
+	if err != nil {
+		return err
+	}
+	bscFuncs = append(bscFuncs, k1, k2)
+	// ETH client store: header index / main root keys
+	ef, err := parseFile(fset, filepath.Join(ctx.Repo, "x/xibc/clients/light-clients/eth/types/store.go"))
+	if err != nil {
+		return err
+	}
+	eth := newKeyPkg(fset)
+	eth.lenient = true
+	eth.imports["host"] = host
+	if err := eth.load(ef); err != nil {
+		return err
+	}
+	var ethFuncs []*kfunc
+	for _, n := range []string{"EthHeaderIndexPath", "EthHeaderIndexKey", "EthRootMainPath", "EthRootMainKey"} {
+		k, err := eth.eval(n)
+		if err != nil {
+			return err
+		}
+		ethFuncs = append(ethFuncs, k)
+	}
 	needConst := func(p *keyPkg, n string) ([]byte, error) {
 		b, ok := p.consts[n]
 		if !ok {
@@ -674,10 +811,14 @@ func runHostKeys(ctx *Ctx) error {
 		{"receiptPrefix", host, "KeyPacketReceiptPrefix"},
 		{"processedTimeSuffix", tm, "KeyProcessedTime"},
 		{"iterateConsensusStatePrefix", tm, "KeyIterateConsensusStatePrefix"},
+		{"recentSignersPrefix", bsc, "PrefixKeyRecentSingers"},
+		{"pendingValidatorsPrefix", bsc, "PrefixPendingValidators"},
+		{"ethHeaderIndexPrefix", eth, "KeyIndexEthHeaderPrefix"},
+		{"ethRootMainPrefix", eth, "KeyMainRootPrefix"},
 	}
 	var sb strings.Builder
 	sb.WriteString(leanHeader)
-	sb.WriteString("-- source: x/xibc/core/host/keys.go, x/xibc/clients/light-clients/tendermint/types/store.go\n")
+	sb.WriteString("-- source: x/xibc/core/host/keys.go, x/xibc/clients/light-clients/{tendermint,bsc,eth}/types/store.go\n")
 	sb.WriteString("import TeleportModel.Model.Host\nnamespace TM.Generated.HostKeys\nopen TM TM.Host\n\n")
 	sb.WriteString("def consts : Consts := {\n")
 	cj := map[string]string{}
@@ -713,8 +854,14 @@ func runHostKeys(ctx *Ctx) error {
 	if err := emit("tm_", tmFuncs); err != nil {
 		return err
 	}
+	if err := emit("bsc_", bscFuncs); err != nil {
+		return err
+	}
+	if err := emit("eth_", ethFuncs); err != nil {
+		return err
+	}
 	fmt.Fprintf(&sb, "/-- name ↦ template, used by the driver to dispatch `key` operations -/\ndef all : List (String × Template) := [\n%s]\n\nend TM.Generated.HostKeys\n", strings.Join(table, ",\n"))
-	ctx.Fact("hostkeys", map[string]interface{}{"constants": cj, "host": hostFuncs, "tendermint": tmFuncs})
+	ctx.Fact("hostkeys", map[string]interface{}{"constants": cj, "host": hostFuncs, "tendermint": tmFuncs, "bsc": bscFuncs, "eth": ethFuncs})
 	return ctx.Emit("HostKeys.lean", sb.String())
 }
 
